@@ -99,7 +99,14 @@ VK_MAIN()
         float d1 = calc_distance(t, p, VK_TN, VK_PM);
         float d2 = calc_distance(p, t, VK_PM, VK_TN);
         int e = bpm_block(t, p, VK_TN, VK_PM);
+#if VK_TN != VK_PM
         VK_ASSERT(d1 == (float)e && d2 == (float)e, "C11: the pairwise distance equals the blocked routine on (longer, shorter)");
+#else
+        /* equal lengths: either sequence may serve as the text (the measure is not symmetric); what the dispatch must
+         * preserve is the blocked routine's value for the order calc_distance chose (second argument as text) */
+        int e2 = bpm_block(p, t, VK_PM, VK_TN);
+        VK_ASSERT(d1 == (float)e2 && d2 == (float)e, "C11: equal lengths - the pairwise distance equals the blocked routine for the argument order used");
+#endif
 #elif VK_MODE == 4
         /* a has length VK_TN, b has length VK_PM (VK_TN >= VK_PM) - both argument orders */
         float d1 = calc_distance(t, p, VK_TN, VK_PM);
